@@ -152,4 +152,39 @@ theorem expandQueries_of_noPos (res : K → K) (f : K) :
       simp only [Function.comp, pow_succ']
       ring
 
+/-- normal form of the loop: either the residual first becomes positive at `g·f^k` (`k ≤ n`) and the loop stops
+there, or it is non-positive at all `g·f^j`, `j ≤ n`, and the loop stops at `g·f^n` -/
+theorem expandTo_cases (res : K → K) (f : K) (n : Nat) (g : K) :
+    (∃ k, k ≤ n ∧ FirstPos res g f k ∧ expandTo res f n g = g * f ^ k) ∨
+    (NoPos res g f n ∧ expandTo res f n g = g * f ^ n) := by
+  rcases firstPos_or_noPos res g f n with ⟨k, hk, hf⟩ | hno
+  · exact Or.inl ⟨k, hk, hf, expandTo_of_firstPos res f n g k hk hf⟩
+  · exact Or.inr ⟨hno, expandTo_of_noPos res f n g hno⟩
+
+/-- `solveCore` without its local definitions -/
+theorem solveCore_eq (res : K → K) (brent : K → K → Option K) (P : Params K) :
+    solveCore res brent P =
+      if res 0 > 0 then Res.none
+      else if res (expandTo res P.factor P.maxExpand P.guess) > 0 then
+        Res.ofOption (brent 0 (expandTo res P.factor P.maxExpand P.guess))
+      else if P.symmetric = true then
+        if res (expandTo res P.factor P.maxExpand (-P.guess)) > 0 then
+          Res.ofOption (brent (expandTo res P.factor P.maxExpand (-P.guess)) 0)
+        else Res.none
+      else Res.none := rfl
+
+theorem ofOption_ne_error {α : Type} (o : Option α) : Res.ofOption o ≠ Res.error := by
+  cases o <;> (intro h; cases h)
+
+theorem ofOption_eq_ok {α : Type} (o : Option α) (x : α) : Res.ofOption o = Res.ok x ↔ o = some x := by
+  cases o with
+  | none => exact ⟨fun h => (by cases h), fun h => (by cases h)⟩
+  | some y => exact ⟨fun h => (by cases h; rfl), fun h => (by cases h; rfl)⟩
+
+theorem ofOption_eq_none {α : Type} (o : Option α) : Res.ofOption o = Res.none ↔ o = none := by
+  cases o with
+  | none => exact ⟨fun _ => rfl, fun _ => rfl⟩
+  | some y => exact ⟨fun h => (by cases h), fun h => (by cases h)⟩
+
+
 end HitenModel.C09
